@@ -160,5 +160,80 @@ def wfEs : Exprs → Bool
   | .cons e es => wfE e && wfEs es
 end
 
+/-! ### the abbreviated spelling
+
+`child::` is omitted, `attribute::` is `@`, `self::node()` is `.`, `parent::node()` is `..`,
+`/descendant-or-self::node()/` is `//` — wherever XPath defines the abbreviation (`.`, `..` and `//`
+stand for steps without predicates).  `Proofs/C08.abbreviated_spelling_roundtrip` (proof:
+`Proofs/Lemmas/ParseRenderAbbr*.lean`) shows that the parser reads it back as the same tree. -/
+
+/-- the axis of a step in the abbreviated syntax: nothing for `child`, `@` for `attribute` -/
+def axisAbbr : Axis → Toks
+  | .child => []
+  | .attribute => [U (.p .at)]
+  | ax => [U (.kw (.axis ax)), U (.p .coloncolon)]
+
+/-- `self::node()` without predicates is `.`, `parent::node()` without predicates is `..` -/
+def dotAbbr : Axis → NodeTest → Exprs → Option Tok
+  | .self, .node, .nil => some (.p .dot)
+  | .parent, .node, .nil => some (.p .dotdot)
+  | _, _, _ => none
+
+/-- is the step `descendant-or-self::node()` after the base `b`, followed by another step, written
+    `b//`?  Not as the first step of a relative path: `//x` would be read from the root. -/
+def dosAbbr : Expr → Axis → NodeTest → Exprs → Bool
+  | .ctx, _, _, _ => false
+  | _, .descendantOrSelf, .node, .nil => true
+  | _, _, _, _ => false
+
+mutual
+def rawAbbr : Expr → Toks
+  | .bin op l r =>
+    wrap (level l) (opLevel op) (rawAbbr l) ++ U (opTok op) :: wrap (level r) (opLevel op + 1) (rawAbbr r)
+  | .neg e => U (.p .minus) :: wrap (level e) 6 (rawAbbr e)
+  | .num n => numToks n
+  | .lit s => [U (litTok s)]
+  | .var p n => [U (varTok p n)]
+  | .call base p n args =>
+    basePrefixAbbr base ++ fnToks p n ++ U (.p .lparen) :: argsAbbr args
+  | .root => [U (.p .lparen), U (.p .slash), U (.p .rparen)]
+  | .ctx => [U (.p .dot)]
+  | .step base ax t ps =>
+    basePrefixAbbr base ++
+      (match dotAbbr ax t ps with
+       | some d => [U d]
+       | none => axisAbbr ax ++ (testToks t ++ predsAbbr ps))
+  | .filt b p =>
+    wrap (level b) 9 (rawAbbr b) ++ U (.p .lbrack) :: (wrap (level p) 0 (rawAbbr p) ++ [U (.p .rbrack)])
+
+/-- the path `b` followed by the separator `sep` (`/` or `//`) -/
+def prefixAbbr (sep : Tok) : Expr → Toks
+  | .root => [U sep]
+  | b => wrap (level b) 8 (rawAbbr b) ++ [U sep]
+
+/-- the part of a path before its last step, with the separating `/` or `//` -/
+def basePrefixAbbr : Expr → Toks
+  | .ctx => []
+  | .step b ax t ps =>
+    if dosAbbr b ax t ps then prefixAbbr (.p .dslash) b
+    else prefixAbbr (.p .slash) (.step b ax t ps)
+  | b => prefixAbbr (.p .slash) b
+
+def predsAbbr : Exprs → Toks
+  | .nil => []
+  | .cons p ps => U (.p .lbrack) :: (wrap (level p) 0 (rawAbbr p) ++ U (.p .rbrack) :: predsAbbr ps)
+
+/-- arguments and the closing parenthesis -/
+def argsAbbr : Exprs → Toks
+  | .nil => [U (.p .rparen)]
+  | .cons a .nil => wrap (level a) 0 (rawAbbr a) ++ [U (.p .rparen)]
+  | .cons a as => wrap (level a) 0 (rawAbbr a) ++ U (.p .comma) :: argsAbbr as
+end
+
+/-- the whole expression in the abbreviated syntax; the root path on its own is `/` -/
+def renderAbbrTop : Expr → Toks
+  | .root => [U (.p .slash)]
+  | e => wrap (level e) 0 (rawAbbr e)
+
 
 end Xsel.Syntax
